@@ -59,6 +59,12 @@ type UCase struct {
 	// Umask: the process umask (octal) the case ran under, "" = 022. Under any other umask the case is
 	// outside the filesystem model (FS.lean has 022 built in) and only the implementation-level oracles judge.
 	Umask string `json:"umask,omitempty"`
+	// RelDst / Cwd: "" = Unpack is handed the absolute path <arena>/<Dst>. Otherwise the case runs with the
+	// process working directory set to <arena>/<Cwd> ("." = the arena itself) and Unpack is handed RelDst as
+	// spelled, a path relative to that directory that names the same place as Dst (seed C01-g: a link judged
+	// at <cwd>/<dst>/<dst>/<name> when dst is relative). os.Chdir is process-wide: one such case at a time.
+	RelDst string `json:"rel_dst,omitempty"`
+	Cwd    string `json:"cwd,omitempty"`
 }
 
 const oldTime = 1300000000
@@ -673,7 +679,11 @@ func unprivDirPermBites(es []UEntry) bool {
 		if e.Typ != tar.TypeDir || e.Name == "" {
 			continue
 		}
-		p := filepath.Clean(strings.TrimPrefix(e.Name, "/"))
+		// the place below dst the entry is for ("." = dst itself, also for "//" and "/./")
+		p := strings.TrimPrefix(filepath.Clean("/"+e.Name), "/")
+		if p == "" {
+			p = "."
+		}
 		for _, a := range noSearch {
 			if a == "." && p != "." || a != "." && strings.HasPrefix(p, a+"/") {
 				return true
@@ -729,8 +739,28 @@ var uNames = []string{"a", "b", "d/a", "d/b", "d/e/f", "l", "l/x", "d/l", "d/l/y
 var uTargets = []string{"a", "b", "d", "d/a", ".", "..", "../dst-evil", "../..", "@ARENA@/etcx/passwd", "d/..", "d/../..", "l", "d/l", "d/l/..", "l/..", "l/../outside.txt",
 	"../dst/a", "../dstx", "nonexist", "e/../..", "../a", "../d/a", "../../dst-evil/x", "", "./a", "d/./a", "l2", "../l", "k", "../k"}
 
+// Backslashes. On POSIX '\\' is an ordinary byte of a file name: "\\main.tf" and "main.tf" are different
+// names, "..\\..\\x" is one harmless name and not a climb (seeds C15-g: leading backslashes stripped from entry
+// names; C04-g: a link target rewritten to forward slashes after it was validated). Names: leading, doubled,
+// after a leading '/', inner, trailing, nothing but backslashes, mixed with '/'. Every name is joined to dst
+// by the code under test, so whatever a rewriting does to it stays below the arena.
+var uBsNames = []string{`\a`, `\d`, `\d/b`, `\d/e/f`, `\\a`, `/\a`, `/\d/a`, `d\a`, `d/\a`, `a\`, `\`, `\\`, `\/a`, `a\b/c`, `..\x`, `\..\x`, `d\..\a`, `\l`, `\k`}
+
+// Targets: what the rewritten text would reach is a decoy inside the arena (p/q/dst-evil/x, p/q/outside.txt,
+// p/up.txt, etcx/passwd), or stays inside dst. SAFETY: no target that a separator rewriting would turn into
+// an absolute path outside the arena: a leading backslash occurs only in front of the arena's own path spelled
+// with backslashes (@BSARENA@); never "\\" alone or "\\abs\\path" (a rewritten "/" under a directory entry of the
+// link's name would have the real root chmod'ed).
+var uBsTargets = []string{`..\dst-evil\x`, `..\dst-evil`, `..\outside.txt`, `..\..\up.txt`, `d\..\..\outside.txt`, `d/..\..\..\up.txt`, `d/..\..\outside.txt`, `d\a`, `..\a`, `a\`, `.\a`,
+	`..\..\..\etcx\passwd`, `@BSARENA@\etcx\passwd`, `@BSARENA@\p\q\dst-evil`, `@BSARENA@\p\q\dst\a`, `e\..\..`, `..\dst\a`}
+
+func bsArena(arena string) string { return strings.ReplaceAll(arena, "/", `\`) }
+
 func genEntry(r *Rng, arena string, i int) UEntry {
 	e := UEntry{Name: r.Pick(uNames), Mode: int64([]int{0644, 0600, 0755, 0444, 0400, 0777, 0000, 0700}[r.Intn(8)]), Mtime: 1400000000 + int64(i)*1000 + int64(r.Intn(500))}
+	if r.Chance(7) {
+		e.Name = r.Pick(uBsNames)
+	}
 	switch x := r.Intn(100); {
 	case x < 45:
 		e.Typ = tar.TypeReg
@@ -749,6 +779,9 @@ func genEntry(r *Rng, arena string, i int) UEntry {
 		}
 		if r.Chance(3) {
 			e.Link = arena + "/p/q/" + r.Pick([]string{"outside.txt", "dst-evil", "dst/../outside.txt", "dst/d/../../dst-evil/x", "dst/d/../a"})
+		}
+		if r.Chance(8) {
+			e.Link = strings.Replace(r.Pick(uBsTargets), "@BSARENA@", bsArena(arena), 1)
 		}
 		e.Mode = 0777
 	case x < 95:
@@ -851,8 +884,53 @@ func genUCase(r *Rng, arena string) *UCase {
 		c.Allow = []string{r.Pick([]string{"../dst-evil", arena + "/p/q/dstx", arena + "/etcx", "../outside.txt", "",
 			// entries that are a string prefix, but not a component prefix, of a decoy (seed C04-d)
 			"../dst-ev", "../outside", arena + "/p/q/dst-ev", "../dst-evil/"})}
+	} else if r.Chance(6) {
+		// a destination that is reached THROUGH a symbolic link (seed C05-g: the "no extraction through a
+		// link" walk started at the filesystem root instead of at dst and refused every entry)
+		viaLink(c, r.Intn(len(viaLinkShapes)), arena)
+	}
+	if r.Chance(12) {
+		// the destination given relative to the working directory (seed C01-g)
+		relSpell(c, r.Intn(8))
 	}
 	return c
+}
+
+// viaLinkShapes: an initial link and the spelling of dst that passes through it (or is it); every one names
+// the directory p/q/dst.
+var viaLinkShapes = []struct{ link, target, dst string }{
+	{"p/ql", "q", "p/ql/dst"},                    // a symlinked ancestor
+	{"pl", "p", "pl/q/dst"},                      // two levels up
+	{"p/q/dstl", "dst", "p/q/dstl"},              // dst itself is a link to a directory
+	{"p/dl", "q/dst", "p/dl"},                    // ... from another directory
+	{"p/q/dst-evil/back", "../dst", "p/q/dst-evil/back"}, // ... with a '..' in its target
+	{"p/ql", "@ARENA@/p/q", "p/ql/dst"},           // an absolute link to the ancestor
+	{"p/q/dstl", "@ARENA@/p/q/dst", "p/q/dstl/"}, // an absolute link to dst, trailing slash
+	{"p/ql", "q", "p/ql/../ql/dst"},
+}
+
+func viaLink(c *UCase, k int, arena string) {
+	sh := viaLinkShapes[k%len(viaLinkShapes)]
+	c.Init = append(c.Init, FSNode{Path: sh.link, Kind: "l", Data: strings.Replace(sh.target, "@ARENA@", arena, 1)})
+	c.Dst = sh.dst
+}
+
+// relSpell: the case runs with the working directory inside the arena and dst spelled relative to it.
+func relSpell(c *UCase, k int) {
+	switch d := c.Dst; {
+	case k == 0:
+		c.Cwd, c.RelDst = ".", "./"+d
+	case k == 1 && d == "p/q/dst":
+		c.Cwd, c.RelDst = ".", "p/q/../q/dst"
+	case k == 2 && strings.HasPrefix(d, "p/q/"):
+		c.Cwd, c.RelDst = "p/q", strings.TrimPrefix(d, "p/q/") // a single name: "dst"
+	case k == 3 && strings.HasPrefix(d, "p/"):
+		c.Cwd, c.RelDst = "p", "./"+strings.TrimPrefix(d, "p/")
+	case k == 4 && d == "p/q/dst":
+		c.Cwd, c.RelDst = "p/q/dst-evil", "../dst" // climbs first
+	default:
+		c.Cwd, c.RelDst = ".", d
+	}
 }
 
 // corpus: witnesses of recorded findings and past disagreements, run before random generation
@@ -865,6 +943,14 @@ func unpackCorpus(arena string) []*UCase {
 	}
 	mkDst := func(dst string, es ...UEntry) *UCase {
 		return &UCase{Dst: dst, Fault: "none", Entries: es, Init: baseInit()}
+	}
+	mkRel := func(cwd, rel string, es ...UEntry) *UCase {
+		return &UCase{Dst: "p/q/dst", Cwd: cwd, RelDst: rel, Fault: "none", Entries: es, Init: baseInit()}
+	}
+	mkVia := func(k int, es ...UEntry) *UCase {
+		c := &UCase{Dst: "p/q/dst", Fault: "none", Entries: es, Init: baseInit()}
+		viaLink(c, k, arena)
+		return c
 	}
 	L := func(n, t string) UEntry { return UEntry{Name: n, Typ: tar.TypeSymlink, Link: t, Mode: 0777, Mtime: 1400000000} }
 	F := func(n, b string) UEntry { return UEntry{Name: n, Typ: tar.TypeReg, Body: b, Mode: 0644, Mtime: 1400000001} }
@@ -929,12 +1015,46 @@ func unpackCorpus(arena string) []*UCase {
 		// explicit 0755 directories next to directories that exist only as parents (under -umask 077 the
 		// former keep 0755, the latter get 0700; seed C09-f: chmod skipped for a recorded 0755)
 		mk(D("x/y/", 0755), F("x/y/f", "explicit"), F("i/j/g", "implicit parents"), D("z/", 0755)),
+		// dst relative to the working directory (seed C01-g: the link judged at <cwd>/<dst>/<dst>/<name>, as many
+		// levels too deep as dst has components): a link that climbs exactly to dst's parent (and one, two levels
+		// further), then a file / directory entry of the link's own name
+		mkRel(".", "p/q/dst", L("l", "../outside.txt"), F("l", "pwn")),
+		mkRel(".", "p/q/dst", L("l", "../fresh.txt"), F("l", "created")),
+		mkRel(".", "./p/q/dst", L("sub/l", "../../outside.txt"), F("sub/l", "pwn")),
+		mkRel(".", "p/q/../q/dst", L("l", "../../up.txt"), F("l", "pwn")),
+		mkRel(".", "p/q/dst", L("l", "../dstx"), D("l/", 0755)),
+		mkRel(".", "p/q/dst", L("l", "../../../etcx/passwd"), F("l", "pwn")),
+		mkRel("p/q", "dst", L("l", "../outside.txt"), F("l", "pwn")),
+		mkRel("p/q", "dst", L("l", "../dstx"), D("l/", 0755)),
+		mkRel("p", "q/dst", L("d/l", "../../../up.txt"), F("d/l", "pwn")),
+		mkRel("p/q/dst-evil", "../dst", L("l", "../outside.txt"), F("l", "pwn")),
+		mkRel(".", "p/q/dst", F("a", "1"), D("d/", 0750), L("d/l", "../a"), F("d/e/f", "plain")), // an ordinary archive
+		// backslashes are ordinary bytes of a name (seed C15-g: leading ones stripped, "\\main.tf" lands on "main.tf")
+		mk(F("main.tf", "plain"), Fm(`\main.tf`, "backslash, longer", 0600)),
+		mk(D("mod/", 0755), F("mod/a.tf", "a"), D(`\mod/`, 0700), F(`\mod/b.tf`, "b")),
+		mk(F(`\\a`, "two"), F(`/\a`, "slash-backslash"), F(`d\a`, "inner"), F(`a\`, "trailing"), F(`\`, "only"), L(`\l`, "a")),
+		// ... and of a link target (seed C04-g: rewritten to '/' after validation): the rewritten text would
+		// reach a decoy
+		mk(L("l", `..\dst-evil\x`), L("d/m", `..\..\outside.txt`), L("n", `d/..\..\..\up.txt`)),
+		mk(L("l", `..\outside.txt`), F("l", "through")),
+		mk(L("l", bsArena(arena)+`\etcx\passwd`), L("m", bsArena(arena)+`\p\q\dst\a`)),
+		// dst reached through a symbolic link (seed C05-g): a symlinked ancestor, dst itself a link
+		mkVia(0, F("a", "1"), D("d/", 0750), F("d/b", "2"), L("d/l", "../a")),
+		mkVia(1, F("a", "1"), L("l", "a")),
+		mkVia(2, F("a", "1"), D("d/", 0750), F("d/b", "2"), L("d/l", "../a")),
+		mkVia(3, F("x/y", "deep"), L("x/l", "y")),
+		mkVia(4, F("a", "1")),
+		mkVia(5, F("a", "1"), L("l", "a")),
+		mkVia(6, F("a", "1"), D("d/", 0700)),
+		mkVia(7, F("a", "1")),
+		mkVia(0, L("l", "../dst-evil"), F("l/x", "refused all the same")),
+		mkVia(2, L("l", "../outside.txt"), F("l", "refused all the same")),
 	}
 }
 
 func init() {
 	lanes["unpack"] = func(cfg *Config, rep *Report) {
-		rep.Rule = "archives of 1..12 entries over a 31-name universe (plain, nested, leading '/', './', '..' detours, sibling-prefix and parent escapes, through-link names) x {file, dir, symlink over 30 target shapes incl. absolute, chains, '..' after names, sibling prefix; hard link, fifo, devices, PAX global header} x modes x header times (2014 stamps next to the boundary pool 0, 1, 2^31-1, 2^31, 8^11 s and .4/.5/.6/.999999999 s fractions; header format PAX / GNU / chosen by archive/tar; for PAX and GNU an access and change time different from the mtime on 30% of the entries) x optional pre-existing dst content x optional allow-list; with -umask other than 022 the same cases run under that umask without model comparison (oracles only); each unpacked into a fresh arena (dst + prefix-sharing siblings + decoy file); non-trivial = has a link, a '..', a duplicate name or a leading '/'; distinct by (init, entries, allow)"
+		rep.Rule = "archives of 1..12 entries over a 31-name universe (plain, nested, leading '/', './', '..' detours, sibling-prefix and parent escapes, through-link names) x {file, dir, symlink over 30 target shapes incl. absolute, chains, '..' after names, sibling prefix; hard link, fifo, devices, PAX global header} x modes x header times (2014 stamps next to the boundary pool 0, 1, 2^31-1, 2^31, 8^11 s and .4/.5/.6/.999999999 s fractions; header format PAX / GNU / chosen by archive/tar; for PAX and GNU an access and change time different from the mtime on 30% of the entries) x backslashes as ordinary bytes (7% of the names from a pool of 19: leading, doubled, after '/', inner, trailing, nothing but backslashes, mixed with '/'; 8% of the link targets from a pool of 17 whose separator-rewritten form would reach a decoy inside the arena, incl. the arena's own path spelled with backslashes) x optional pre-existing dst content x optional allow-list x destination shape (6% reached through a symbolic link: symlinked ancestor one or two levels up, dst itself a link to a directory, relative / absolute / '..' link targets, judged at the physical place; 12% given relative to the working directory, which is then the arena, p, p/q or a sibling of dst: one such case at a time inside its Chdir..Unpack section; put to the model with the arena as filesystem root when the working directory is the arena and no path spells the arena's absolute name, otherwise oracles only); with -umask other than 022 the same cases run under that umask without model comparison (oracles only); each unpacked into a fresh arena (dst + prefix-sharing siblings + decoy file); non-trivial = has a link, a '..', a duplicate name or a leading '/'; distinct by (init, entries, allow, dst spelling, working directory)"
 		r := NewRng(cfg.Seed)
 		if cfg.Work == "" {
 			rep.Broken = append(rep.Broken, "unpack lane needs -work")
@@ -950,6 +1070,15 @@ func init() {
 		umask := laneUmask(cfg)
 		syscall.Umask(umask)
 		probeFsTimes(work)
+		// the process working directory during the lane is the scratch directory (a relative path that strayed
+		// from a relative-dst case would land there and nowhere else); restored when the lane is done
+		if owd, err := os.Getwd(); err == nil {
+			defer os.Chdir(owd)
+		}
+		if err := os.Chdir(work); err != nil {
+			rep.Broken = append(rep.Broken, "work dir: "+err.Error())
+			return
+		}
 		type job struct {
 			idx   int
 			c     *UCase
@@ -974,8 +1103,16 @@ func init() {
 				for k := range jobs[i].c.Entries {
 					jobs[i].c.Entries[k].Link = strings.Replace(jobs[i].c.Entries[k].Link, mkArena(0), jobs[i].arena, 1)
 				}
+				for k := range jobs[i].c.Entries {
+					jobs[i].c.Entries[k].Link = strings.Replace(jobs[i].c.Entries[k].Link, bsArena(mkArena(0)), bsArena(jobs[i].arena), 1)
+				}
 				for k := range jobs[i].c.Allow {
 					jobs[i].c.Allow[k] = strings.Replace(jobs[i].c.Allow[k], mkArena(0), jobs[i].arena, 1)
+				}
+				for k := range jobs[i].c.Init {
+					if jobs[i].c.Init[k].Kind == "l" {
+						jobs[i].c.Init[k].Data = strings.Replace(jobs[i].c.Init[k].Data, mkArena(0), jobs[i].arena, 1)
+					}
 				}
 			}
 		}
@@ -1013,19 +1150,28 @@ func init() {
 			rep.EndReplay(reqs[replay.idx])
 			jobs = jobs[:len(jobs)-1]
 		}
-		var wg sync.WaitGroup
-		sem := make(chan struct{}, 16)
-		for _, j := range jobs {
-			wg.Add(1)
-			sem <- struct{}{}
-			go func(j job) {
-				defer wg.Done()
-				defer func() { <-sem }()
-				runUnpackCase(cfg, rep, umask, j.idx, j.c, j.arena, reqs, impl, human)
-				os.RemoveAll(j.arena)
-			}(j)
+		// two phases: the cases that hand Unpack an absolute dst, concurrently; then the cases that run with the
+		// working directory inside their arena and a relative dst. os.Chdir is process-wide, so of the latter
+		// only one at a time is inside its Chdir .. Unpack .. Chdir section (cwdMu, in runUnpackCase); building
+		// the arena and the snapshots of other such cases overlap with it.
+		for phase := 0; phase < 2; phase++ {
+			var wg sync.WaitGroup
+			sem := make(chan struct{}, 16)
+			for _, j := range jobs {
+				if (j.c.RelDst != "") != (phase == 1) {
+					continue
+				}
+				wg.Add(1)
+				sem <- struct{}{}
+				go func(j job) {
+					defer wg.Done()
+					defer func() { <-sem }()
+					runUnpackCase(cfg, rep, umask, j.idx, j.c, j.arena, reqs, impl, human)
+					os.RemoveAll(j.arena)
+				}(j)
+			}
+			wg.Wait()
 		}
-		wg.Wait()
 		// compact (cases the generator could not materialise are skipped)
 		var rq, im []string
 		var hu []interface{}
@@ -1099,16 +1245,68 @@ func runUnpackCase(cfg *Config, rep *Report, umask int, idx int, c *UCase, arena
 	// the destination is handed to Unpack (and to the model) as spelled; the oracles work with its
 	// cleaned form
 	dst := arena + "/" + c.Dst
-	dstRel := filepath.Clean(c.Dst)
+	// where dst physically is: the place itself when no component of it is a symbolic link, otherwise what
+	// the links lead to (dst below a symlinked ancestor, dst itself a link to a directory). The oracles
+	// look at the physical place: that is where an Unpack into dst works.
+	dstPhys := filepath.Clean(dst)
+	viaLinkDst := false
+	if res, ok := resolvePhys("/", strings.Split(dstPhys, "/"), 40); ok && res != dstPhys {
+		if res == arena || !within(arena, res) {
+			rep.Count("skipped:dst-leaves-arena")
+			return
+		}
+		dstPhys, viaLinkDst = res, true
+		rep.Count("dst:via-link")
+	}
+	dstRel := strings.TrimPrefix(dstPhys, arena+"/")
+	physAbs := func(p string) string {
+		p = filepath.Clean(p)
+		if viaLinkDst {
+			if res, ok := resolvePhys("/", strings.Split(p, "/"), 40); ok {
+				return res
+			}
+		}
+		return p
+	}
 	data := buildTarGz(c.Entries)
 	decoded, derr := decodeTar(data)
 	if derr != nil {
 		rep.Count("skipped:undecodable")
 		return
 	}
+	if c.RelDst != "" {
+		if strings.HasPrefix(c.RelDst, "/") || strings.HasPrefix(c.Cwd, "/") || c.Cwd == "" ||
+			filepath.Join(arena, c.Cwd, c.RelDst) != filepath.Clean(dst) || !within(arena, filepath.Join(arena, c.Cwd)) {
+			rep.mu.Lock()
+			rep.Broken = append(rep.Broken, fmt.Sprintf("relative dst %q from %q does not name dst %q", c.RelDst, c.Cwd, c.Dst))
+			rep.mu.Unlock()
+			return
+		}
+		rep.Count("dst:relative")
+	}
 	start := time.Now()
 	before := snapshot(arena, start)
-	out := runUnpack(bytes.NewReader(data), dst, c.Allow)
+	var out unpackOutcome
+	if c.RelDst == "" {
+		out = runUnpack(bytes.NewReader(data), dst, c.Allow)
+	} else {
+		// the working directory is process-wide: one relative-dst case at a time
+		cwdMu.Lock()
+		back, gerr := os.Getwd()
+		if gerr != nil {
+			back = filepath.Dir(arena)
+		}
+		if err := os.Chdir(filepath.Join(arena, c.Cwd)); err != nil {
+			cwdMu.Unlock()
+			rep.mu.Lock()
+			rep.Broken = append(rep.Broken, "chdir: "+err.Error())
+			rep.mu.Unlock()
+			return
+		}
+		out = runUnpack(bytes.NewReader(data), c.RelDst, c.Allow)
+		os.Chdir(back)
+		cwdMu.Unlock()
+	}
 	after := snapshot(arena, start)
 
 	priv := "1"
@@ -1117,6 +1315,18 @@ func runUnpackCase(cfg *Config, rep *Report, umask int, idx int, c *UCase, arena
 		rep.Count("unprivileged")
 	}
 	line := fmt.Sprintf("unpack %s %s %s %s %s %s %s", priv, X("/"), X(dst), encStrList(c.Allow), c.Fault, encArena(arena, before), encEntries(decoded))
+	implLine := out.class + " " + encArena(arena, after)
+	relOutside := false
+	if c.RelDst != "" {
+		// The filesystem model resolves every path from its root: a relative path means "relative to /". A
+		// relative-dst case is therefore put to the model with the arena as the root of the filesystem and
+		// "/" as the working directory (what a chroot into the arena would show). That is faithful as long as
+		// no path of the case is spelled with the arena's real absolute name and the working directory is the
+		// arena itself; the other relative-dst cases are judged by the oracles alone.
+		relOutside = filepath.Clean(c.Cwd) != "." || mentionsArena(c, arena)
+		line = fmt.Sprintf("unpack %s %s %s %s %s %s %s", priv, X("/"), X(c.RelDst), encStrList(c.Allow), c.Fault, encArenaRooted(before), encEntries(decoded))
+		implLine = out.class + " " + encArenaRooted(after)
+	}
 	// The filesystem model has no directory permission checks (FS.lean: only the owner-write test of
 	// create).  For an unprivileged run they bite in one place: the deferred directory pass restores
 	// modes in archive order, so a directory entry whose mode lacks the owner's search bit, followed by
@@ -1129,9 +1339,11 @@ func runUnpackCase(cfg *Config, rep *Report, umask int, idx int, c *UCase, arena
 		rep.Count("outside-model:unprivileged-dir-search-bit")
 	} else if umask != 022 {
 		rep.Count("outside-model:umask")
+	} else if relOutside {
+		rep.Count("outside-model:relative-dst")
 	} else {
 		reqs[idx] = line
-		impl[idx] = out.class + " " + encArena(arena, after)
+		impl[idx] = implLine
 		human[idx] = c
 	}
 
@@ -1143,13 +1355,19 @@ func runUnpackCase(cfg *Config, rep *Report, umask int, idx int, c *UCase, arena
 		}
 		seen[filepath.Clean(e.Name)] = true
 	}
-	h := sha256.Sum256([]byte(fmt.Sprintf("%v|%v|%v", c.Init, c.Entries, c.Allow)))
+	h := sha256.Sum256([]byte(fmt.Sprintf("%v|%v|%v|%s|%s|%s", c.Init, c.Entries, c.Allow, c.Dst, c.Cwd, c.RelDst)))
 	rep.Case(hex.EncodeToString(h[:]), nt, map[string]interface{}{"entries": c.Entries, "allow": c.Allow, "result": out.class})
 	rep.Count("result:" + out.class)
 	for _, e := range decoded {
 		rep.Count(fmt.Sprintf("type:%c", e.Typ))
 	}
 	for _, e := range c.Entries {
+		if strings.Contains(e.Name, `\`) {
+			rep.Count("names:backslash")
+		}
+		if e.Typ == tar.TypeSymlink && strings.Contains(e.Link, `\`) {
+			rep.Count("targets:backslash")
+		}
 		if e.HasAtime {
 			rep.Count("times:atime-recorded")
 		}
@@ -1165,6 +1383,15 @@ func runUnpackCase(cfg *Config, rep *Report, umask int, idx int, c *UCase, arena
 		rep.AddOracle(OracleFailure{Property: "C19", Lane: "unpack", What: fmt.Sprintf("Unpack %s: %v", out.class, out.panicked), Input: c, ReqIdx: idx + 1})
 	}
 
+	// ---- C01: nothing outside dst changes ----
+	bm := map[string]FSNode{}
+	for _, n := range before {
+		bm[n.Path] = n
+	}
+	am := map[string]FSNode{}
+	for _, n := range after {
+		am[n.Path] = n
+	}
 	// ---- C12: an Unpack that reports success has processed the whole archive: its last file, directory
 	// or link entry is there (seed C12-e: a swallowed rejection ends the loop early with a nil error)
 	if out.class == "ok" {
@@ -1180,22 +1407,15 @@ func runUnpackCase(cfg *Config, rep *Report, umask int, idx int, c *UCase, arena
 			if rel == "." || rel == ".." || strings.HasPrefix(rel, "../") {
 				break
 			}
-			if _, err := os.Lstat(filepath.Join(arena, dstRel, rel)); err != nil {
+			// (looked up in the snapshot, which also sees below directories that the archive made unsearchable
+			// for an unprivileged observer: a dst entry of mode 0644 is no loss of the last entry)
+			if _, there := am[filepath.Join(dstRel, rel)]; !there {
 				rep.AddOracle(OracleFailure{Property: "C12", Lane: "unpack", What: fmt.Sprintf("Unpack returned nil but the archive's last entry %q was not materialised", e.Name), Input: c, ReqIdx: idx + 1})
 			}
 			break
 		}
 	}
 
-	// ---- C01: nothing outside dst changes ----
-	bm := map[string]FSNode{}
-	for _, n := range before {
-		bm[n.Path] = n
-	}
-	am := map[string]FSNode{}
-	for _, n := range after {
-		am[n.Path] = n
-	}
 	inDst := func(p string) bool { return p == dstRel || strings.HasPrefix(p, dstRel+"/") }
 	_, dstExisted := bm[dstRel]
 	var outside []string
@@ -1239,7 +1459,7 @@ func runUnpackCase(cfg *Config, rep *Report, umask int, idx int, c *UCase, arena
 				if !strings.HasPrefix(a, "/") {
 					a = filepath.Join(dst, a)
 				}
-				if within(filepath.Clean(a), p) || within(p, filepath.Clean(a)) {
+				if within(physAbs(a), p) || within(p, physAbs(a)) {
 					ok = true
 				}
 			}
@@ -1261,7 +1481,7 @@ func runUnpackCase(cfg *Config, rep *Report, umask int, idx int, c *UCase, arena
 			if !strings.HasPrefix(a, "/") {
 				a = filepath.Join(dst, a)
 			}
-			if within(filepath.Clean(a), p) {
+			if within(physAbs(a), p) {
 				return true
 			}
 		}
@@ -1286,11 +1506,11 @@ func runUnpackCase(cfg *Config, rep *Report, umask int, idx int, c *UCase, arena
 		if !ok {
 			continue // a loop leads nowhere
 		}
-		if !within(filepath.Clean(dst), res) && !allowedAbs(res) {
+		if !within(dstPhys, res) && !allowedAbs(res) {
 			sig := unpackSignature(c, "link")
 			rep.AddOracle(OracleFailure{Property: "C04", Lane: "unpack", What: fmt.Sprintf("link %s -> %q resolves to %s, outside dst (result %s)", n.Path, n.Data, strings.TrimPrefix(res, arena), out.class),
 				Input: c, Signature: sig, ReqIdx: idx + 1})
-		} else if strings.HasPrefix(n.Data, "/") && !initLinks[n.Path] && !allowedAbs(filepath.Clean(n.Data)) {
+		} else if strings.HasPrefix(n.Data, "/") && !initLinks[n.Path] && !allowedAbs(physAbs(n.Data)) {
 			rep.AddOracle(OracleFailure{Property: "C04", Lane: "unpack", What: fmt.Sprintf("link %s has the absolute target %q and was accepted", n.Path, strings.Replace(n.Data, arena, "<arena>", 1)),
 				Input: c, Signature: "unpack.link-abs-inside", ReqIdx: idx + 1})
 		}
@@ -1308,6 +1528,17 @@ func runUnpackCase(cfg *Config, rep *Report, umask int, idx int, c *UCase, arena
 				}
 			} else if out.class != "ok" {
 				rep.AddOracle(OracleFailure{Property: "C15", Lane: "unpack", What: "well-formed archive refused: " + out.class, Input: c, ReqIdx: idx + 1})
+				if packShaped(decoded) {
+					// ... and it is of the shape Pack writes (clean relative names, one entry per path, files,
+					// directories and relative in-tree links only): "Unpack accepts every slug Pack produces"
+					how := "an absolute dst"
+					if viaLinkDst {
+						how = "a dst that is reached through a symbolic link"
+					} else if c.RelDst != "" {
+						how = "a dst relative to the working directory"
+					}
+					rep.AddOracle(OracleFailure{Property: "C05", Lane: "unpack", What: "Unpack into " + how + " refuses an archive of the shape Pack produces (relative in-tree links only): " + out.class, Input: c, ReqIdx: idx + 1})
+				}
 			} else {
 				var diffs []string
 				got := map[string]FSNode{}
@@ -1350,7 +1581,27 @@ func prepareReplayedUCase(c *UCase, arena, work string) string {
 	if d := filepath.Clean(c.Dst); strings.HasPrefix(c.Dst, "/") || d == ".." || strings.HasPrefix(d, "../") {
 		return fmt.Sprintf("dst %q is not a path below the arena", c.Dst)
 	}
-	rw := func(s string) string { return rewriteArena(s, 'u', 6, arena) }
+	if c.RelDst != "" || c.Cwd != "" {
+		// a relative dst: it must name dst from a working directory inside the arena
+		if c.RelDst == "" || c.Cwd == "" || strings.HasPrefix(c.RelDst, "/") || strings.HasPrefix(c.Cwd, "/") || countDotDot(c.Cwd) > 0 ||
+			countDotDot(c.RelDst) > 3 || filepath.Join("/a", c.Cwd, c.RelDst) != filepath.Join("/a", c.Dst) {
+			return fmt.Sprintf("relative dst %q from working directory %q does not name dst %q inside the arena", c.RelDst, c.Cwd, c.Dst)
+		}
+	}
+	rw := func(s string) string {
+		if strings.Contains(s, `\`) && !strings.Contains(s, "/") {
+			// the arena spelled with backslashes (targets that a separator rewriting would make absolute)
+			return strings.ReplaceAll(rewriteArena(strings.ReplaceAll(s, `\`, "/"), 'u', 6, arena), "/", `\`)
+		}
+		return rewriteArena(s, 'u', 6, arena)
+	}
+	// a target or allow-list entry is also judged in the form a separator rewriting would give it
+	unsafeBs := func(s string) string {
+		if !strings.Contains(s, `\`) {
+			return ""
+		}
+		return unsafeTarget(strings.ReplaceAll(s, `\`, "/"), arena)
+	}
 	for k := range c.Init {
 		n := &c.Init[k]
 		if why := unsafeRelName(n.Path, false); why != "" {
@@ -1359,6 +1610,9 @@ func prepareReplayedUCase(c *UCase, arena, work string) string {
 		if n.Kind == "l" {
 			n.Data = rw(n.Data)
 			if why := unsafeTarget(n.Data, arena); why != "" {
+				return "initial link " + n.Path + ": " + why
+			}
+			if why := unsafeBs(n.Data); why != "" {
 				return "initial link " + n.Path + ": " + why
 			}
 		}
@@ -1372,10 +1626,19 @@ func prepareReplayedUCase(c *UCase, arena, work string) string {
 		if why := unsafeTarget(e.Link, arena); why != "" {
 			return "link target of entry " + e.Name + ": " + why
 		}
+		if why := unsafeBs(e.Link); why != "" {
+			return "link target of entry " + e.Name + " (backslashes read as separators): " + why
+		}
+		if why := unsafeRelName(strings.ReplaceAll(e.Name, `\`, "/"), true); why != "" {
+			return "entry name (backslashes read as separators): " + why
+		}
 	}
 	for k := range c.Allow {
 		c.Allow[k] = rw(c.Allow[k])
 		if why := unsafeTarget(c.Allow[k], arena); why != "" {
+			return "allow-list entry: " + why
+		}
+		if why := unsafeBs(c.Allow[k]); why != "" {
 			return "allow-list entry: " + why
 		}
 	}
@@ -1388,6 +1651,64 @@ func onlyStandardInit(init []FSNode) bool {
 		if strings.HasPrefix(n.Path, "p/q/dst/") {
 			return false
 		}
+	}
+	return true
+}
+
+var cwdMu sync.Mutex
+
+// encArenaRooted renders a snapshot with the arena as the root of the filesystem (the arena's own node is
+// the model's root directory, which always exists and is not listed).
+func encArenaRooted(nodes []FSNode) string {
+	var parts []string
+	for _, n := range nodes {
+		if n.Path == "" {
+			continue
+		}
+		parts = append(parts, encNodeAbs("/"+n.Path, n))
+	}
+	if len(parts) == 0 {
+		return "-"
+	}
+	return strings.Join(parts, ",")
+}
+
+// mentionsArena: a link target, allow-list entry or initial link of the case spells the arena's absolute path
+func mentionsArena(c *UCase, arena string) bool {
+	for _, e := range c.Entries {
+		if strings.Contains(e.Link, arena) || strings.Contains(e.Name, arena) {
+			return true
+		}
+	}
+	for _, a := range c.Allow {
+		if strings.Contains(a, arena) {
+			return true
+		}
+	}
+	for _, n := range c.Init {
+		if n.Kind == "l" && strings.Contains(n.Data, arena) {
+			return true
+		}
+	}
+	return false
+}
+
+// packShaped: the entry list could have been written by Pack: files, directories and links only, each name
+// relative and clean (a directory's with or without its trailing slash), one entry per path.
+func packShaped(es []UEntry) bool {
+	seen := map[string]bool{}
+	for _, e := range es {
+		if e.Typ != tar.TypeReg && e.Typ != tar.TypeDir && e.Typ != tar.TypeSymlink {
+			return false
+		}
+		n := e.Name
+		if e.Typ == tar.TypeDir {
+			n = strings.TrimSuffix(n, "/")
+		}
+		if n == "" || n == "." || strings.HasPrefix(n, "/") || filepath.Clean(n) != n || n == ".." || strings.HasPrefix(n, "../") || seen[n] {
+			return false
+		}
+		seen[n] = true
 	}
 	return true
 }
